@@ -175,7 +175,10 @@ def try_build(case):
             out["font"] = r
         elif kind == "bad-fill":
             a = _simple_glyph(rng, (0x1F600,))
-            txt = e2e.svg_text(a).replace('fill="#', 'fill="foo(1,2)" data-x="#', 1)
+            # a paint nanoemoji cannot read: an unknown function, or a hex colour of a length
+            # that is none of #RGB #RGBA #RRGGBB #RRGGBBAA
+            bad_fill = rng.choice(["foo(1,2)", "#FF00000", "#12345678F", "#12345", "#1G2B3C", "hsl(10,20%,30%)"])
+            txt = e2e.svg_text(a).replace('fill="#', f'fill="{bad_fill}" data-x="#', 1)
             out["font"] = _build_raw([txt], [a], dict(color_format=rng.choice(["glyf_colr_1", "glyf_colr_0", "picosvg"]), output_file="o.ttf"))
         elif kind == "bad-spread":
             a = _simple_glyph(rng, (0x1F600,))
